@@ -13,6 +13,11 @@
      {"t","e":"Kernel","i":k,"rd":[{"w":what,"cells":[..],"sid":s,"delta":d,"sidonly":bool}..],"wr":[{"cells","sid","delta"}..]}
      {"t","e":"Dma","i":k,"mode":"copy"|"retag","src":[cells],"dst":[cells],"shift":src-dst,
                     "insid","indelta","outsid","outdelta"}
+     {"t","e":"Alias","i":k,"src":[cells],"dst":[cells],"insid","indelta","outsid","outdelta"}
+                    a feature-map copy the compiler ELIDED (no operation in the stream): it claims that the bytes of the
+                    source tensor ARE the destination tensor.  src / dst = the cells of the two tensors in the memories
+                    (regions) they are allocated in.  Sound only if both name the same bytes of the same memory; equal
+                    offsets in two different memories are different bytes: nothing moves, the destination stays as it was
      {"t","e":"Out","i":k,"outs":[{"w":name,"cells":[..]}..]}   results of the custom operator (plan of the output file):
                     every byte must be defined when the stream ends (written by it, or an input it aliases)
      {"t","e":"Stop"}                                                                                     *)
@@ -54,6 +59,17 @@ Dma == /\ Ev.e = "Dma"
                  ELSE [c \in S(Ev.dst) |->
                          LET s == mem[Ev.src[CHOOSE i \in 1..Len(Ev.dst) : Ev.dst[i] = c]]
                          IN IF s = Uninit THEN Uninit ELSE <<s[1], s[2] + Ev.shift>>] @@ mem
+(* an elided copy: no operation is executed, so no byte moves.  If source and destination are the same cells the bytes
+   change their identity (they must hold the source tensor) - otherwise the elision is unsound (ElidedCopySameBytes) and the
+   destination keeps whatever it held, so that the consumer's read is judged against what is really there *)
+SameBytes(e) == e.src = e.dst
+Alias == /\ Ev.e = "Alias"
+         /\ LET undefined == \E i \in 1..Len(Ev.src) : mem[Ev.src[i]] = Uninit
+                wrong == \E i \in 1..Len(Ev.src) : mem[Ev.src[i]] # Uninit /\ mem[Ev.src[i]] # <<Ev.insid, Ev.indelta>>
+            IN viol' = viol \cup (IF ~SameBytes(Ev) THEN {<<Ev.t, "ElidedCopySameBytes", Ev.i, "alias">>} ELSE {})
+                            \cup (IF undefined THEN {<<Ev.t, "DmaCopiesDefined", Ev.i, "src">>} ELSE {})
+                            \cup (IF wrong THEN {<<Ev.t, "DmaCopiesIntended", Ev.i, "src">>} ELSE {})
+         /\ mem' = IF SameBytes(Ev) THEN [c \in S(Ev.dst) |-> <<Ev.outsid, Ev.outdelta>>] @@ mem ELSE mem
 (* the outputs of the custom operator are what CPU operators and later NPU subgraphs consume as "defined on entry": the
    stream must have defined every byte of them at the address the output file publishes *)
 Out == /\ Ev.e = "Out"
@@ -61,7 +77,7 @@ Out == /\ Ev.e = "Out"
                                   k \in {k \in 1..Len(Ev.outs) : \E i \in 1..Len(Ev.outs[k].cells) : mem[Ev.outs[k].cells[i]] = Uninit} }
        /\ UNCHANGED mem
 Stop == Ev.e = "Stop" /\ UNCHANGED <<mem, viol>>
-Next == l <= Len(Trace) /\ (Hdr \/ Kernel \/ Dma \/ Out \/ Stop) /\ l' = l + 1
+Next == l <= Len(Trace) /\ (Hdr \/ Kernel \/ Dma \/ Alias \/ Out \/ Stop) /\ l' = l + 1
 Spec == Init /\ [][Next]_<<l, mem, viol>>
 Consumed == TLCGet("stats").diameter = Len(Trace) + 1
 Report == l = Len(Trace) + 1 => PrintT(<<"VERDICT", ToJson(viol)>>)
